@@ -6,7 +6,7 @@ Generic table/trace flow (tablecheck.table_check) with two family-specific touch
   * evidence post-processing: the answer vectors of the sample events are truncated (they carry one
     packed answer per subscriber id) and the explorer's own counters are added.
 """
-import json, os
+import json, os, time
 from tablecheck import table_check
 from vcheck import VERIF, WORK
 
@@ -33,9 +33,12 @@ def runner(prop, fam, tier, seed, replay=None):
     fam2 = dict(fam)
     fam2["design"] = DESIGN_THOROUGH if tier == "thorough" else DESIGN_QUICK
     fam2["impl_workers"] = 16 if tier == "thorough" else 6
+    t0 = time.time()
     rc = table_check(prop, fam2, tier, seed, replay)
     evp = os.path.join(VERIF, "evidence", prop + ".json")
     try:
+        if rc not in (0, 1) or os.path.getmtime(evp) < t0:
+            return rc   # no fresh evidence was written by this run (infrastructure failure)
         ev = json.load(open(evp))
         cov = ev.get("coverage", {})
         cov["samples"] = _trim(cov.get("samples", []))
@@ -69,6 +72,7 @@ CHECKS = {
             "the configured peer set of a node is what the operator gave it: set(Peers) + NodeID, + AddPeer, - RemovePeer (a set of names)",
             "ranked list, effective (healthy) owner and the health setter are reached through the verif-tagged hooks in pkg/pool/verif_hooks.go (rendezvousRanked / getHealthyOwner are unexported); health is set directly instead of through three failed HTTP probes",
             "end-to-end: node id == peer address (what getPeerAddr assumes); the nodes' HTTP clients dial the logical address through a custom dialer to the loopback listener; every node has its own disjoint pool network so an address identifies its pool; pool contents are read by reflection",
+            "end-to-end subscriber ids are valid UTF-8 (a forwarded request carries the id in a JSON body, which replaces invalid bytes: the owner books such a subscriber under another id - noted, not judged under C17)",
             "the failure scenario marks the stopped node unhealthy in every surviving view and only asks the surviving nodes for fresh subscriber ids (split views of health are outside the property)",
             "configurations where node ids and peer addresses use different naming (NodeID 'bng-0', Peers 'bng-0:8081,...') give every node a different peer set and are not a common 'peer set' in the sense of the property: not judged",
             "bounded: peer sets of size <= 5 (quick) / <= 8 (thorough) from a pool of 22 tricky strings incl. two ids with equal FNV-1a hash; all orders up to size 4 (quick) / 5 (thorough), sampled above",
